@@ -285,7 +285,7 @@ fn run_generators(ctx: &Ctx, coll: &Collector) -> (u64, Vec<String>) {
         let out = std::process::Command::new("cargo")
             .args(["run", "--release", "--offline", "-q", "--features", "binary", "--bin", bin])
             .current_dir(&crate_dir)
-            .env("CARGO_TARGET_DIR", "/verif/work/target-gen")
+            .env("CARGO_TARGET_DIR", std::env::var("VERIF_GEN_TARGET").unwrap_or_else(|_| "/verif/work/target-gen".to_string()))
             .env("CARGO_NET_OFFLINE", "true")
             .env_remove("RUSTFLAGS")
             .output();
